@@ -14,4 +14,4 @@ Extraction "model.ml"
   factory parse_coap parse_sctp parse_udp parse_ipv4 parse_ipv6
   buf_to_json buf_from_json mm_to_json mm_from_json field_to_json field_from_json pdesc_to_json pdesc_from_json
   rfd_to_json rfd_from_json rule_to_json rule_from_json context_to_json context_from_json
-  parse_coap_semantic coap_unparse.
+  parse_coap_semantic coap_unparse packet_parse.
